@@ -109,9 +109,21 @@ def run(ctx):
             calls.append((a, k))
             return Rat.sym('REC%d' % (len(calls) - 1))
 
+        def recursion(it, f, a, k, calls=calls):
+            # the recursive step, wherever it lives: a function of the module calling ITSELF (segment_length, or a private worker behind it)
+            if calls and f.info is not None and it.func_stack and it.func_stack[-1] == f.info.qualname and f.info.module.name == fsl.module.name:
+                def h(it2, a2, k2, f=f):
+                    b = bind_args(it2, f.info, a2, k2, drop_self=False)
+                    calls.append(([b.get('curve', a2[0]), b.get('start'), b.get('end'), b.get('start_point'), b.get('end_point'),
+                                   b.get('error'), b.get('min_depth'), b.get('depth')], {}))
+                    return Rat.sym('REC%d' % (len(calls) - 1))
+                return h
+            return None
+
         def th3(it, calls=calls, deep=deep):
             del calls[:]
             curve = Opaque('curve')
+            it.hook_pred = recursion
             it.call_hooks['__curve_point__'] = None
             from svtstatic.values import Closure
             mids = []
